@@ -11,20 +11,21 @@ from ..core import Machinery
 GENV = dict(GIT_AUTHOR_NAME="t", GIT_AUTHOR_EMAIL="t@e", GIT_COMMITTER_NAME="t", GIT_COMMITTER_EMAIL="t@e", GIT_CONFIG_GLOBAL="/dev/null", GIT_CONFIG_SYSTEM="/dev/null")
 CFG = ("SPECIFICATION Spec\nINVARIANT Agreement\nINVARIANT StrictlyGreater\nINVARIANT TagsUnique\nINVARIANT NextUpdatePossible\nINVARIANT OneCommitOneTag\n%sCHECK_DEADLOCK FALSE\n")
 F0 = dict(major=False, minor=False, patch=False, tag="none", tag_num=False, pin_increments=False, pin_date=False)
+# start versions sit just below a digit boundary (patch 9 -> 10, INC0 9 -> 10, BUILD 1999 -> 22000, MINOR 9 -> 10): orderings by text and by version differ there
 PROJECTS = [
-    dict(pattern="vMAJOR.MINOR.PATCH[-TAG]", v0="v1.2.3-beta", day0=dt.date(2024, 4, 1),
+    dict(pattern="vMAJOR.MINOR.PATCH[-TAG]", v0="v1.2.9-beta", day0=dt.date(2024, 4, 1),
          flags=[dict(F0, patch=True), dict(F0, minor=True), dict(F0, tag="rc"), dict(F0, tag="final"), dict(F0, major=True, tag="alpha"), dict(F0)]),
-    dict(pattern="vYYYY0M.BUILD[-TAG]", v0="v202403.1001-beta", day0=dt.date(2024, 4, 1),
+    dict(pattern="vYYYY0M.BUILD[-TAG]", v0="v202403.1998-beta", day0=dt.date(2024, 4, 1),
          flags=[dict(F0), dict(F0, tag="rc"), dict(F0, tag="final"), dict(F0, pin_date=True), dict(F0, tag="beta")]),
-    dict(pattern="YYYY.MM.INC0", v0="2024.3.7", day0=dt.date(2024, 4, 1),
+    dict(pattern="YYYY.MM.INC0", v0="2024.3.9", day0=dt.date(2024, 4, 1),
          flags=[dict(F0), dict(F0, pin_date=True), dict(F0, pin_increments=True)]),
     dict(pattern="MAJOR.MINOR[.PATCH[PYTAGNUM]]", v0="1.9", day0=dt.date(2024, 4, 1),
          flags=[dict(F0, patch=True), dict(F0, minor=True), dict(F0, tag="beta"), dict(F0, tag_num=True), dict(F0, tag="final"), dict(F0, major=True)]),
 ]
 
 
-def gen_hist(prj, depth):
-    return glue.gen_module("Gen_Hist", dict(GenP=glue.parse_pattern(prj["pattern"]), GenV0=glue.cp(prj["v0"]), GenDay0=prj["day0"].toordinal(), GenDayStep={0, 1, 40},
+def gen_hist(prj, depth, daystep=(0, 1, 40)):
+    return glue.gen_module("Gen_Hist", dict(GenP=glue.parse_pattern(prj["pattern"]), GenV0=glue.cp(prj["v0"]), GenDay0=prj["day0"].toordinal(), GenDayStep=set(daystep),
                                             GenToday=drive.TODAY.toordinal(), GenFlagSets=[f for f in prj["flags"]], GenDepth=depth)).replace(
         "GenFlagSets == <<", "GenFlagSets == {").replace(">>\nGenDepth", "}\nGenDepth")
 
@@ -165,8 +166,32 @@ def run(ctx):
         hists.sort(key=lambda h: -(sum(1 for s in h if s["act"] == "update" and s["ok"]) * 3 + sum(1 for s in h if s["act"] in ("switch", "newbranch"))))
         for k, h in enumerate(hists[:ctx.pick(15, 400)]):
             jobs.append((pi, h, len(jobs)))
-    if len(jobs) < 20:
-        raise Machinery("simulation exported only %d behaviours" % len(jobs))
+    n_simulated = len(jobs)
+    if n_simulated < 20:
+        raise Machinery("simulation exported only %d behaviours" % n_simulated)
+    # ---- design + export: EVERY history of two steps (one date) for two projects - the short histories random simulation rarely composes
+    # (a tagged update followed by an untagged one across a digit boundary, a failing update followed by a good one, ...)
+    n_short = 0
+    for pi in (0, 3):
+        prj = PROJECTS[pi]
+        res = tlc.run(tlc.module_text("Bumpver.tla"), CFG % "VIEW View\nCONSTRAINT Export\n", name="Bumpver", workers=16, extra_files={"Gen_Hist.tla": gen_hist(prj, 2, (0,))}, timeout=3400, xmx="12g")
+        ctx.add_design(res, "Bumpver.tla exhaustive + export, %s, every history of 2 steps on one date" % prj["pattern"])
+        if res.violation:
+            ctx.violation(dict(clause="design:" + res.violation, project=prj["pattern"]), case=dict(state=res.trace[-2:]), check="design")
+        hists = []
+        for ln in res.raw_printed:
+            if ln.startswith("HIST "):
+                hists.append(json.loads(ln[5:]))
+        hists.sort(key=lambda h: json.dumps(h, sort_keys=True))
+        for k, h in enumerate(hists):
+            if ctx.quick and not any(s["act"] == "update" and s["ok"] for s in h) and k % 3:
+                continue
+            jobs.append((pi, h, len(jobs)))
+            n_short += 1
+    if n_short < 300:
+        raise Machinery("the exhaustive runs exported only %d two-step histories" % n_short)
+    ctx.count("two_step_histories_replayed", n_short)
+    ctx.count("simulated_histories_replayed", n_simulated)
     results = drive.pmap(replay, jobs, hooks=False, chunksize=1)
     n_steps = 0
     for r in results:
@@ -183,7 +208,7 @@ def run(ctx):
     ctx.evaluations = n_steps
     for r in results:
         ctx.nontriv(json.dumps(r["hist"]))
-    ctx.rule = ("behaviours of Bumpver.tla generated by TLC simulation (4 projects: SemVer with tag, CalVer with BUILD, CalVer with INC0, optional PATCH/PYTAGNUM; histories of %d steps: "
+    ctx.rule = ("every two-step history of two projects (exhaustive TLC run, one date) and behaviours of Bumpver.tla generated by TLC simulation (4 projects: SemVer with tag, CalVer with BUILD, CalVer with INC0, optional PATCH/PYTAGNUM; histories of %d steps: "
                 "updates with flag sets, scopes, --no-commit/--no-tag-commit, dates that do not decrease, failing updates, user commits, unrelated commits, new branch, branch switches) "
                 "replayed step by step against real git and the real CLI; after every step exit code, announced and start version, config value, file occurrences, `show`, tag count, "
                 "tag at HEAD and the committed paths are compared with the spec state; non-trivial = distinct behaviours" % depth)
